@@ -1,6 +1,20 @@
 --------------------------- MODULE SchemaPayloads4 ---------------------------
+(* Operation payloads, part 4: object creation and registration             *)
+(* (KMIP 1.x sections 4.1 Create, 4.2 Create Key Pair, 4.3 Register;        *)
+(* KMIP 2.0 sections 6.1.8, 6.1.9, 6.1.42).                                 *)
+(* Under 2.0 the Template-Attribute structures of the requests become       *)
+(* Attributes structures (kind tmpl) and the responses no longer carry any. *)
 EXTENDS KmipSchemaCore
-SchemaPayloads4T == [ x \in {} |-> <<>> ]
-ClassTagPayloads4 == [ x \in {} |-> "" ]
+
+Tmpl(n, t, c) == F(n, t, "tmpl", "", c, 10, 20)
+
+SchemaPayloads4T == [
+  CreateRequestPayload |-> <<
+      ReqE("object_type", "OBJECT_TYPE", "ObjectType"),
+      Tmpl("template_attribute", "TEMPLATE_ATTRIBUTE", "1"),
+      Since(OptS("protection_storage_masks", "PROTECTION_STORAGE_MASKS", "ProtectionStorageMasks"), 20) >>
+]
+ClassTagPayloads4 == [
+  CreateRequestPayload |-> "REQUEST_PAYLOAD" ]
 ClassSincePayloads4 == [ x \in {} |-> <<10, 20>> ]
 =============================================================================
